@@ -34,6 +34,7 @@ class TrioExec:
         self.injected = None
         self.task_steps = {}
         self.deadlocked = False
+        self.caller_names = set()
         self.stepcap = False
         self.root_scope = None
 
@@ -79,7 +80,38 @@ class TrioExec:
         finally:
             gen.close()
 
+    def snapshot_blocked(self):
+        """(caller, site) of every caller task still alive, taken before the teardown
+        cancels them."""
+        from .aloop import hc_site
+
+        out = []
+        stack = [trio.lowlevel.current_root_task()]
+        while stack:
+            t = stack.pop()
+            for n in t.child_nurseries:
+                stack.extend(n.child_tasks)
+            if t.name in self.caller_names:
+                frames = []
+                if t is trio.lowlevel.current_task():
+                    import sys
+                    f = sys._getframe(1)
+                    while f is not None:
+                        frames.append((f.f_code.co_filename, f.f_code.co_name))
+                        f = f.f_back
+                    frames.reverse()
+                else:
+                    try:
+                        for f, _ in t.iter_await_frames():
+                            frames.append((f.f_code.co_filename, f.f_code.co_name))
+                    except Exception:  # noqa: BLE001
+                        pass
+                out.append((t.name, hc_site(frames)))
+        self.blocked = sorted(out)
+
     def _deadlock(self):
+        if not self.deadlocked:
+            self.snapshot_blocked()
         self.deadlocked = True
         if self.root_scope is not None:
             self.root_scope.cancel()
@@ -177,12 +209,15 @@ def run_trio(scn, observers=()):
             async with trio.open_nursery() as nursery:
                 async def watchdog():
                     await trio.sleep_until(FOREVER)
+                    if not ex.deadlocked:
+                        ex.snapshot_blocked()
                     ex.deadlocked = True
                     root.cancel()
 
                 nursery.start_soon(watchdog, name="watchdog")
                 async with trio.open_nursery() as callers:
                     for i, c in enumerate(scn.get("callers", ())):
+                        ex.caller_names.add(f"c{i}")
                         callers.start_soon(wrapped, api, f"c{i}", c, name=f"c{i}")
                     if cancel is not None and cancel.get("kind") == "deadline":
                         async def fire():
@@ -242,8 +277,7 @@ def run_trio(scn, observers=()):
         world._now = min(last or 0.0, FOREVER)
     if ex.deadlocked:
         res.error = "deadlock"
-        res.blocked = [(o.get("token"), o.get("phase")) for k, o in sorted(world.outcomes.items())
-                       if o.get("phase") not in ("done", "failed", "cancelled")]
+        res.blocked = list(getattr(ex, "blocked", None) or ())
         world.log("DEADLOCK", tuple(res.blocked))
     elif ex.stepcap:
         res.error = "stepcap"
